@@ -43,6 +43,7 @@ def pristine(jobs, hashseed):
 
 def explore(chk):
     rng = chk.rng
+    rich_sub = chk.sub("rich_inline_style")
     H = 60 if chk.tier == "quick" else 1500
     histories = []
     jobs = []
@@ -206,6 +207,17 @@ def explore(chk):
             ops_fixed = [("shared", 0, kind, None, 0), ("shared", 0, kind, None, 1), ("fresh", None, kind, None, 1), ("shared", 0, kind, None, 0)]
         else:
             ops_fixed = None
+        rich_span = h % 5 == 2
+        if rich_span:
+            # an inline style with several plain rules at once: the attributes of the span it becomes are written in one
+            # order, whatever the hash seed
+            rules = {"text-align": "right", "font-family": "Arial", "font-size": "12px", "color": "yellow", "display-align": "before"}
+            keys = rich_sub.sample(sorted(rules), rich_sub.randint(2, 5))
+            st_ = {k_: rules[k_] for k_ in keys}
+            if rich_sub.random() < 0.4:
+                st_["italics"] = True
+            c_ = sets[0]["langs"][0]["caps"][0]
+            c_["nodes"] = [["S", True, dict(st_)], ["T", "styled words "], ["S", False, dict(st_)]] + c_["nodes"]
         ops = []
         for _ in range(rng.randint(2, 8) if ops_fixed is None else 0):
             si = rng.randrange(len(sets))
@@ -217,6 +229,8 @@ def explore(chk):
             pass
         if ops_fixed is not None:
             ops = ops_fixed
+        if rich_span:
+            ops = list(ops) + [("fresh", None, "dfxp", None, 0), ("fresh", None, "single", None, 0)]
         histories.append((sets, shared, ops))
         for (_, _, kind, opts, si) in ops:
             o = dict(opts or {})
